@@ -218,6 +218,17 @@ def main():
         write_if_changed(GEN + "/ApiShape.v", "(* translator failed closed: %s *)\nFrom MoSql Require Import Model.Api.\nDefinition parse_shape : list effect := nil.\n"
                          "Definition entry_points : list (String.string * String.string * bool) := nil.\nDefinition all_locked : bool := false.\n"
                          "Definition cache_keyed_by_both : bool := false.\nDefinition fresh_default_null : bool := false.\nDefinition formatter_writes : list String.string := nil.\n" % str(e).replace("*", "x")[:300])
+    try:
+        import extract_grammar
+        extract_grammar.build()
+    except Exception as e:
+        # the grammar translator fails closed (C09 / C18 report it): empty tables keep the rest of the development building
+        names = ["common", "common_star", "mysql", "mysql_star", "sqlserver", "sqlserver_star", "bigquery", "bigquery_star"]
+        write_if_changed(GEN + "/Grammar.v", "(* translator failed closed: %s *)\nFrom Coq Require Import List NArith.\nFrom MoSql Require Import Model.Peg.\nImport ListNotations.\nLocal Open Scope N_scope.\n" % str(e).replace("*", "x")[:300]
+                         + "".join("Definition T_%s : table := [].\nDefinition root_%s : N := 0.\nDefinition w0_%s : N := 0.\n" % (n, n, n) for n in names)
+                         + "".join("Definition R_%s : list (N * N) := [].\nDefinition EQN_%s : list (N * N) := [].\n" % (n, n) for n in names if not n.startswith("common"))
+                         + "Definition DT : list N := [].\nDefinition WS_AWARE : list N := [].\nDefinition WS_NONE : list N := [].\n")
+        write_if_changed(GEN + "/grammar.json", json.dumps(dict(error=str(e)[:500])))
     T = build_l1()
     changed = write_if_changed(GEN + "/Tables.v", coq_tables(T))
     write_if_changed(GEN + "/tables.json", json.dumps(T, indent=1, sort_keys=True, default=str))
